@@ -38,7 +38,7 @@ CHECKS = {
  },
  "C13": {
   "design_ref": "DESIGN.md section 6",
-  "technique": "deterministic simulation with fault injection: seeded operation histories (fit / transform / refit on other data) with injected I/O errors on the scratch-file seam, failing and short readers, invalid items in later blocks or documents, mid-call cancellation, failure of one chunk task, perturbed randomness / schedule / hash seed; oracles: deep input/parameter snapshots (also of held fit inputs), sandbox temp-dir listing, pristine-twin memo of outputs, same-seed-same-model",
+  "technique": "deterministic simulation with fault injection: seeded operation histories (fit / transform / refit on other data) with injected I/O errors on the scratch-file seam, failing and short readers, invalid items in later blocks or documents, mid-call cancellation, failure of one chunk task, perturbed randomness / schedule / hash seed; oracles: deep input/parameter snapshots (also of held fit inputs), process-global state (dask configuration, leaked threads), sandbox temp-dir listing, pristine-twin memo of outputs, same-seed-same-model",
   "text": "Seeded exploration of call histories per estimator (21 estimator classes) with at most one fault per operation: ENOSPC/EIO/EACCES at the k-th scratch-file operation, readers that raise or end early, invalid distributions / tokens in a later block or document, cancellation at the n-th traced line, MemoryError in one chunk task of a multi-threaded call. After every operation, returned or raised: inputs and parameter objects unchanged, sandbox temp directory unchanged, outputs equal the pristine twin's single-call output, same-seed refits equal under perturbed global RNG / schedule.",
   "note": "Trusted: the snapshot/compare code, the fault-injecting wrappers around tempfile.mkdtemp / np.memmap / os.remove as seen from the library, sys.settrace for cancellation. Torn writes, process crashes and allocator failures are not injected (no contract in this library).",
  },
